@@ -17,16 +17,21 @@ import (
 // such a channel poll it in virtual time instead (1 ms, doubling up to 1 min), so that a task stuck on
 // it shows up as late / stuck in virtual time like any other blocked task.
 var (
-	foreignChans sync.Map // channel pointer (uintptr) -> struct{}
+	foreignChans sync.Map // channel pointer (uintptr) -> the channel (kept alive)
 	nForeign     atomic.Int64
 )
 
 // MadeChan is the identity; it registers channels made outside a simulation.
 func MadeChan[C any](c C) C {
-	if active() == nil {
+	// Only goroutines that never were tasks of a simulation count (package initialisers, the test's own
+	// goroutines): a leftover task of an ended run is not "outside".  The registry keeps the channel itself,
+	// so its address can never be reused by a channel made later inside a run (a first version kept the bare
+	// address: after a collection a bubble channel could land on it and was polled instead of blocked on -
+	// which is where a `stuck` verdict that did not reproduce came from).
+	if curTask() == nil {
 		v := reflect.ValueOf(c)
 		if v.Kind() == reflect.Chan && !v.IsNil() {
-			if _, loaded := foreignChans.LoadOrStore(v.Pointer(), struct{}{}); !loaded {
+			if _, loaded := foreignChans.LoadOrStore(v.Pointer(), any(c)); !loaded {
 				nForeign.Add(1)
 			}
 		}
